@@ -56,6 +56,7 @@ const (
 	dmEnvJitter = "GLB_VERIF_DM_JITTER"
 	dmEnvLife   = "GLB_VERIF_DM_LIFE_MS"
 	dmEnvRole   = "GLB_VERIF_ROLE"
+	dmEnvDetach = "GLB_VERIF_DM_DETACH" // the handler makes itself a session leader (setsid) before Done(), as classic daemons do
 	dmEnvScrub  = "GLB_VERIF_DM_SCRUB"  // the handler clears the daemon package's own env vars before Done()
 	dmEnvDie    = "GLB_VERIF_DM_DIE"    // the handler exits with status 3 before reaching Done()
 	dmEnvNested = "GLB_VERIF_DM_NESTED" // after Done() the daemon itself launches a second daemon (a supervisor starting a worker)
@@ -111,6 +112,9 @@ func dmHandler() {
 	time.Sleep(time.Duration(delay) * time.Millisecond)
 	if os.Getenv(dmEnvDie) == "1" {
 		os.Exit(3) // a daemon that fails during start-up: Launch must report an error
+	}
+	if os.Getenv(dmEnvDetach) == "1" {
+		syscall.Setsid() // own session and process group: a Ctrl-C on the caller's terminal no longer reaches the daemon
 	}
 	if os.Getenv(dmEnvScrub) == "1" {
 		// a daemon that cleans its environment (so that helpers it starts do not become daemons)
@@ -575,6 +579,11 @@ func runDaemon(cfg Cfg) {
 		if i%4 == 3 {
 			restore := dmSetenv(map[string]string{dmEnvScrub: "1"})
 			d.scenario("scrub-env", 1, rng.Intn(20), false, false)
+			restore()
+		}
+		if i%4 == 2 {
+			restore := dmSetenv(map[string]string{dmEnvDetach: "1"})
+			d.scenario("daemon-calls-setsid", 1, rng.Intn(20), i%8 == 2, false)
 			restore()
 		}
 		if i%3 == 0 {
